@@ -84,6 +84,12 @@ class World:
         from fakesnow.instance import FakeSnow
 
         self.sim = sim
+        self.scratch: str | None = None
+        if fs_opts.get("db_path") == "<scratch>":
+            World._n = getattr(World, "_n", 0) + 1
+            self.scratch = scratch_dir(f"w{World._n}")
+            sim.scratch = self.scratch
+            fs_opts = dict(fs_opts, db_path=self.scratch)
         self.fs_opts = fs_opts
         self.fs = FakeSnow(**fs_opts)
         self.conns: dict[str, Any] = {}
@@ -114,6 +120,15 @@ class World:
     def _apply(self, op: dict[str, Any]) -> dict[str, Any]:
         k = op["k"]
         sid = op["s"]
+        if k == "restart":
+            # a later patch()/process on the same db_path: everything of the old instance is gone
+            from fakesnow.instance import FakeSnow
+
+            self.fs.duck_conn.close()
+            self.conns.clear()
+            self.cursors.clear()
+            self.fs = FakeSnow(**self.fs_opts)
+            return {"ok": True}
         if k == "connect":
             kw = {x: op[x] for x in ("database", "schema") if op.get(x) is not None}
             self.conns[sid] = self.fs.connect(**kw)
@@ -268,6 +283,10 @@ class World:
                 self.fs.duck_conn.close()
             except BaseException:  # noqa: BLE001, S110
                 pass
+        if self.scratch:
+            import shutil
+
+            shutil.rmtree(self.scratch, ignore_errors=True)
 
 
 def scratch_dir(tag: str) -> str:
